@@ -93,6 +93,8 @@ enum Op {
     InBad,
     AgentSend(usize, Resp),
     DlSend(u64, Req),
+    /// a send-only client (AttachClient::OneWay)
+    AttachSender(u64),
 }
 impl Op {
     fn coq(&self) -> String {
@@ -104,6 +106,7 @@ impl Op {
             Op::InBad => "OInBad".into(),
             Op::AgentSend(n, p) => format!("OAgentSend {} {}", n, p.coq()),
             Op::DlSend(d, q) => format!("ODlSend {} {}", d, q.coq()),
+            Op::AttachSender(d) => format!("OAttachSender {}", d),
         }
     }
 }
@@ -273,6 +276,19 @@ async fn run(plane: &[usize], ops: &[Op]) -> Result<Vec<String>, String> {
                     }
                     dls.insert(*d, Downlink { rx: Some(FramedRead::new(resp_rx, Default::default())), tx: Some(FramedWrite::new(req_tx, Default::default())), node: *n, lane: *l });
                 }
+                Op::AttachSender(d) => {
+                    let (req_tx, req_rx) = byte_channel(NonZeroUsize::new(BUF).unwrap());
+                    let (done_tx, done_rx) = oneshot::channel();
+                    attach_tx
+                        .send(AttachClient::OneWay { agent_id: Uuid::from_u128(*d as u128), path: None, receiver: req_rx, done: done_tx })
+                        .await
+                        .map_err(|_| "the socket task stopped taking attachments".to_string())?;
+                    match tokio::time::timeout(Duration::from_secs(5), done_rx).await {
+                        Ok(Ok(Ok(()))) => {}
+                        other => return Err(format!("attaching the send-only client {} failed: {:?}", d, other.map(|r| r.map(|x| x.is_ok())))),
+                    }
+                    dls.insert(*d, Downlink { rx: None, tx: Some(FramedWrite::new(req_tx, Default::default())), node: 0, lane: 0 });
+                }
                 Op::Drop(d) => {
                     if let Some(k) = dls.get_mut(d) {
                         k.rx = None;
@@ -424,6 +440,7 @@ fn main() {
                 Op::InBad => "bad_frame_in",
                 Op::AgentSend(..) => "agent_send",
                 Op::DlSend(..) => "downlink_send",
+                Op::AttachSender(_) => "attach_send_only_client",
             };
             *kinds.entry(k.into()).or_default() += 1;
         }
@@ -458,6 +475,22 @@ fn main() {
     };
 
     let ev = |n: usize, l: usize, b: u64| Op::InResp(Resp { kind: 3, node: n, lane: l, body: Some(b) });
+    // corpus: a send-only client's commands leave the socket, in order, next to a downlink's
+    emit(
+        vec![0],
+        vec![
+            Op::AttachSender(1),
+            Op::DlSend(1, Req { kind: 3, node: 1, lane: 0, body: Some(921) }),
+            Op::Attach(2, 1, 0),
+            Op::DlSend(1, Req { kind: 3, node: 2, lane: 1, body: Some(922) }),
+            Op::DlSend(2, Req { kind: 0, node: 1, lane: 0, body: None }),
+            ev(1, 0, 923),
+            Op::Drop(1),
+            Op::DlSend(1, Req { kind: 3, node: 1, lane: 0, body: Some(924) }),
+        ],
+        &mut w,
+        &mut failures,
+    );
     // corpus: two lanes of one node; the only downlink of one goes away; an envelope for it; then one for the other
     emit(vec![0], vec![Op::Attach(1, 1, 0), Op::Attach(2, 1, 1), Op::Drop(1), ev(1, 0, 901), ev(1, 1, 902), ev(1, 0, 903)], &mut w, &mut failures);
     emit(vec![0], vec![Op::Attach(1, 1, 0), Op::Attach(2, 1, 0), Op::Attach(3, 2, 0), Op::Drop(1), ev(1, 0, 904), ev(2, 0, 905), Op::Drop(2), ev(1, 0, 906), ev(1, 0, 907), Op::Attach(4, 1, 0), ev(1, 0, 908)], &mut w, &mut failures);
@@ -495,6 +528,10 @@ fn main() {
                     next_dl += 1;
                     Op::Attach(next_dl - 1, node, lane)
                 }
+                5 if next_dl <= 6 && rng.below(2) == 0 => {
+                    next_dl += 1;
+                    Op::AttachSender(next_dl - 1)
+                }
                 5..=6 if next_dl > 1 => Op::Drop(rng.range(1, next_dl - 1)),
                 7..=12 => {
                     let kind = *rng.pick(&[0u8, 1, 2, 2, 3, 3, 3]);
@@ -527,7 +564,7 @@ fn main() {
     let meta = J::obj(vec![
         ("evaluations", J::I(w.len() as i128)),
         ("distinct_nontrivial", J::I(nontrivial as i128)),
-        ("rule", J::s("the real RemoteTask over an in-memory web socket (ratchet over a tokio duplex): up to 6 downlinks attached (AttachClient::AttachDownlink) to addresses drawn from 4 nodes x 3 lanes (names with spaces included), concentrated on one or two nodes; their readers dropped at generated moments; request and response envelopes of every kind written to the socket as text by the real ReconEncoder; the harness answers FindNode for the nodes of the case's plane with channels it keeps the far ends of and sends responses through them; downlinks send requests; optionally an invalid frame last; after every operation everything that arrived at each downlink, each agent and the socket is read and compared with Model/SocketDispatch.v (lock step) and with the registration-list specification (oracle); non-trivial = a response arrived for an address all of whose downlinks had gone while another lane of the same node had a live downlink")),
+        ("rule", J::s("the real RemoteTask over an in-memory web socket (ratchet over a tokio duplex): up to 6 downlinks (AttachClient::AttachDownlink) and send-only clients (AttachClient::OneWay) attached, the downlinks to addresses drawn from 4 nodes x 3 lanes (names with spaces included), concentrated on one or two nodes; their readers dropped at generated moments; request and response envelopes of every kind written to the socket as text by the real ReconEncoder; the harness answers FindNode for the nodes of the case's plane with channels it keeps the far ends of and sends responses through them; downlinks send requests; optionally an invalid frame last; after every operation everything that arrived at each downlink, each agent and the socket is read and compared with Model/SocketDispatch.v (lock step) and with the registration-list specification (oracle); non-trivial = a response arrived for an address all of whose downlinks had gone while another lane of the same node had a live downlink")),
         ("structures", J::counts(&kinds)),
         ("samples", J::A(samples)),
         ("direct_failures", J::A(failures.iter().take(40).map(|f| J::s(f.chars().take(600).collect::<String>())).collect())),
